@@ -539,4 +539,199 @@ theorem complete_run_boundary (fuel : Nat) (poly : Poly α) (ccw : Bool)
 
 end Cert
 
+/-! ### convex polygons: the loop completes -/
+/-- `x` has the sign of the orientation `ccw` -/
+def Oriented (ccw : Bool) (x : ℝ) : Prop := if ccw then 0 < x else x < 0
+
+/-- points in strictly convex position, listed counter-clockwise (`ccw = true`) or clockwise: every
+triple taken in list order turns that way -/
+def ConvexPos (ccw : Bool) (l : List (Pt2 ℝ)) : Prop :=
+  ∀ i j k, i < j → j < k → k < l.length → Oriented ccw (Tri.cross3 (l.getD i d0) (l.getD j d0) (l.getD k d0))
+
+theorem cross3_rot (a b c : Pt2 ℝ) : Tri.cross3 b c a = Tri.cross3 a b c := by
+  simp only [Tri.cross3]; ring
+theorem cross3_swap (a b c : Pt2 ℝ) : Tri.cross3 a c b = -Tri.cross3 a b c := by
+  simp only [Tri.cross3]; ring
+
+theorem isCcw_of_oriented (ccw : Bool) (a b c : Pt2 ℝ) (h : Oriented ccw (Tri.cross3 a b c)) :
+    isCcw a b c = ccw := by
+  cases ccw
+  · simp only [Oriented, Bool.false_eq_true, if_false] at h
+    simp only [isCcw]
+    rw [Bool.eq_false_iff]; intro hc
+    have : 0 < Tri.cross3 a b c := by simpa using hc
+    linarith
+  · simp only [Oriented, if_true] at h
+    simpa [isCcw] using h
+
+/-- a point strictly on the far side of the chord `a c` (seen from `b`) is not in triangle `a b c` -/
+theorem inTriangle_false (ccw : Bool) (p a b c : Pt2 ℝ) (habc : Oriented ccw (Tri.cross3 a b c))
+    (hp : Oriented ccw (Tri.cross3 c p a)) : inTriangle p a b c = false := by
+  have hden : (b.y - c.y) * (a.x - c.x) + (c.x - b.x) * (a.y - c.y) = Tri.cross3 a b c := by
+    simp only [Tri.cross3]; ring
+  have hnb : (c.y - a.y) * (p.x - c.x) + (a.x - c.x) * (p.y - c.y) = -Tri.cross3 c p a := by
+    simp only [Tri.cross3]; ring
+  unfold inTriangle
+  simp only [hden, hnb]
+  have hne : Tri.cross3 a b c ≠ 0 := by
+    cases ccw <;> simp only [Oriented, Bool.false_eq_true, if_false, if_true] at habc <;> linarith
+  have hneq : Cmp.eqb (Tri.cross3 a b c) 0 = false := by
+    rw [Bool.eq_false_iff]; intro hc; exact hne (by simpa using hc)
+  simp only [hneq, Bool.false_eq_true, if_false]
+  have hbeta : 1 / Tri.cross3 a b c * -Tri.cross3 c p a < 0 := by
+    cases ccw <;> simp only [Oriented, Bool.false_eq_true, if_false, if_true] at habc hp
+    · have h1 : 1 / Tri.cross3 a b c < 0 := one_div_neg.mpr habc
+      have h2 : 0 < -Tri.cross3 c p a := by linarith
+      exact mul_neg_of_neg_of_pos h1 h2
+    · have h1 : 0 < 1 / Tri.cross3 a b c := one_div_pos.mpr habc
+      have h2 : -Tri.cross3 c p a < 0 := by linarith
+      exact mul_neg_of_pos_of_neg h1 h2
+  have hb : Cmp.ltb (1 / Tri.cross3 a b c * -Tri.cross3 c p a) 0 = true := by simpa using hbeta
+  rw [hb]
+  split <;> rfl
+
+
+theorem anyIdx_false {β : Type} (f : Nat → β → Bool) : ∀ (l : List β) (k : Nat),
+    (∀ i (hi : i < l.length), f (k + i) l[i] = false) → anyIdx l k f = false
+  | [], _, _ => rfl
+  | x :: xs, k, h => by
+    simp only [anyIdx, Bool.or_eq_false_iff]
+    refine ⟨by have := h 0 (by simp); simpa using this, anyIdx_false f xs (k + 1) fun i hi => ?_⟩
+    have := h (i + 1) (by simpa using hi)
+    simpa [Nat.add_assoc, Nat.add_comm 1 i] using this
+
+theorem pt_getD (poly : Poly ℝ) (i : Nat) (hi : i < poly.length) : (poly[i]).2 = (pts poly).getD i d0 := by
+  simp [pts, List.getD_eq_getElem?_getD, hi]
+
+/-- **in a convex polygon the first vertex is an ear under the scan rule** -/
+theorem convex_isEar_zero (ccw : Bool) (poly : Poly ℝ) (hn : 3 ≤ poly.length) (hc : ConvexPos ccw (pts poly)) :
+    isEar poly ccw 0 = true := by
+  have hl : (pts poly).length = poly.length := by simp [pts]
+  have hp : prevIdx poly.length 0 = poly.length - 1 := by simp [prevIdx]
+  have hx : nextIdx poly.length 0 = 1 := by unfold nextIdx; rw [if_neg (by omega)]
+  have habc : Oriented ccw (Tri.cross3 (pt poly (poly.length - 1)) (pt poly 0) (pt poly 1)) := by
+    rw [← pts_getD, ← pts_getD, ← pts_getD, ← cross3_rot]
+    exact hc 0 1 (poly.length - 1) (by omega) (by omega) (by omega)
+  unfold isEar
+  simp only [hp, hx]
+  rw [isCcw_of_oriented ccw _ _ _ habc]
+  simp only [bne_self_eq_false, Bool.false_eq_true, if_false, Bool.not_eq_true']
+  apply anyIdx_false
+  intro j hj
+  simp only [Nat.zero_add]
+  by_cases h1 : j = 0
+  · subst h1; simp
+  by_cases h2 : j = poly.length - 1
+  · simp [h2]
+  by_cases h3 : j = 1
+  · simp [h3]
+  have hin : inTriangle (poly[j]).2 (pt poly (poly.length - 1)) (pt poly 0) (pt poly 1) = false := by
+    apply inTriangle_false ccw _ _ _ _ habc
+    rw [pt_getD poly j hj, ← pts_getD, ← pts_getD]
+    exact hc 1 j (poly.length - 1) (by omega) (by omega) (by omega)
+  simp [hin]
+
+theorem convex_findEar (ccw : Bool) (poly : Poly ℝ) (hn : 3 ≤ poly.length) (hc : ConvexPos ccw (pts poly)) :
+    findEar poly ccw = some 0 := by
+  have h := convex_isEar_zero ccw poly hn hc
+  cases hp : poly with
+  | nil => rw [hp] at hn; simp at hn
+  | cons x xs =>
+    rw [hp] at h
+    simp [findEar, findIdxFrom, h]
+
+theorem convex_tail (ccw : Bool) (l : List (Pt2 ℝ)) (hc : ConvexPos ccw l) : ConvexPos ccw (l.eraseIdx 0) := by
+  cases l with
+  | nil => exact hc
+  | cons a t =>
+    intro i j k hij hjk hk
+    have := hc (i + 1) (j + 1) (k + 1) (by omega) (by omega) (by simpa using hk)
+    simpa [List.getD_cons_succ] using this
+
+/-- **the loop completes on every convex polygon** -/
+theorem convex_run_complete (ccw : Bool) : ∀ (fuel : Nat) (poly : Poly ℝ) (acc : List (Tri3 ℝ)),
+    ConvexPos ccw (pts poly) → 2 ≤ poly.length → poly.length ≤ fuel + 2 →
+    (clipRun fuel poly ccw acc).2.length = 2
+  | 0, poly, acc, _, h2, hf => by
+    simp only [clipRun]; omega
+  | fuel + 1, poly, acc, hc, h2, hf => by
+    simp only [clipRun]
+    split
+    · rename_i hlt; simp only []; omega
+    · rename_i hlen
+      rw [convex_findEar ccw poly (by omega) hc]
+      simp only []
+      apply convex_run_complete ccw fuel
+      · rw [pts_eraseIdx]; exact convex_tail ccw _ hc
+      · rw [List.length_eraseIdx, if_pos (by omega)]; omega
+      · rw [List.length_eraseIdx, if_pos (by omega)]; omega
+
+
+theorem foldIdx_index {β γ : Type} (step : Nat × γ → Nat → β → Nat × γ)
+    (hstep : ∀ acc i v, (step acc i v).1 = acc.1 ∨ (step acc i v).1 = i) :
+    ∀ (l : List β) (k : Nat) (acc : Nat × γ),
+      (foldIdx l k step acc).1 = acc.1 ∨ (k ≤ (foldIdx l k step acc).1 ∧ (foldIdx l k step acc).1 < k + l.length)
+  | [], _, _ => Or.inl rfl
+  | x :: xs, k, acc => by
+    simp only [foldIdx]
+    rcases foldIdx_index step hstep xs (k + 1) (step acc k x) with h | ⟨h1, h2⟩
+    · rcases hstep acc k x with h' | h'
+      · left; rw [h, h']
+      · right; rw [h, h']; simp
+    · right; exact ⟨by omega, by simp only [List.length_cons]; omega⟩
+
+theorem leftmost_lt (poly : Poly ℝ) (hn : 1 ≤ poly.length) : leftmost poly < poly.length := by
+  unfold leftmost
+  simp only []
+  have := foldIdx_index (β := Nat × Pt2 ℝ) (γ := Pt2 ℝ)
+    (fun acc i v => if Cmp.ltb v.2.x acc.2.x || (Cmp.eqb v.2.x acc.2.x && Cmp.ltb v.2.y acc.2.y) then (i, v.2) else acc)
+    (by intro acc i v; split <;> simp) poly 0 (0, pt poly 0)
+  rcases this with h | ⟨_, h⟩
+  · rw [h]; exact hn
+  · simpa using h
+
+/-- a convex polygon turns its own way at every vertex, in particular at the left-most one -/
+theorem convex_refCcw (ccw : Bool) (poly : Poly ℝ) (hn : 3 ≤ poly.length) (hc : ConvexPos ccw (pts poly)) :
+    refCcw poly = ccw := by
+  have hpl : (pts poly).length = poly.length := by simp [pts]
+  unfold refCcw
+  simp only []
+  have hi := leftmost_lt poly (by omega)
+  generalize leftmost poly = i at hi
+  apply isCcw_of_oriented
+  rw [← pts_getD, ← pts_getD, ← pts_getD]
+  by_cases h0 : i = 0
+  · subst h0
+    have hp : prevIdx poly.length 0 = poly.length - 1 := by simp [prevIdx]
+    have hx : nextIdx poly.length 0 = 1 := by unfold nextIdx; rw [if_neg (by omega)]
+    rw [hp, hx, ← cross3_rot]
+    exact hc 0 1 (poly.length - 1) (by omega) (by omega) (by omega)
+  · by_cases hl : i = poly.length - 1
+    · have hp : prevIdx poly.length i = poly.length - 2 := by unfold prevIdx; rw [if_neg h0]; omega
+      have hx : nextIdx poly.length i = 0 := by unfold nextIdx; rw [if_pos hl]
+      rw [hp, hx, hl, cross3_rot]
+      exact hc 0 (poly.length - 2) (poly.length - 1) (by omega) (by omega) (by omega)
+    · have hp : prevIdx poly.length i = i - 1 := by unfold prevIdx; rw [if_neg h0]
+      have hx : nextIdx poly.length i = i + 1 := by unfold nextIdx; rw [if_neg hl]
+      rw [hp, hx]
+      exact hc (i - 1) i (i + 1) (by omega) (by omega) (by omega)
+
+/-- **C03 on convex polygons**: `triangulate` emits exactly n-2 triangles -/
+theorem triangulate_convex_complete (ccw : Bool) (poly : Poly ℝ) (hn : 3 ≤ poly.length)
+    (hc : ConvexPos ccw (pts poly)) : (triangulate poly).length = 3 * (poly.length - 2) := by
+  have hr := convex_refCcw ccw poly hn hc
+  have hres := convex_run_complete ccw poly.length poly [] hc (by omega) (by omega)
+  have h1 := clip_eq poly.length poly ccw ([] : List (Tri3 ℝ))
+  have h2 := clipRun_count poly.length poly ccw ([] : List (Tri3 ℝ))
+  simp only [labels, List.flatMap_nil, List.length_nil, Nat.zero_add] at h1 h2
+  unfold triangulate
+  rw [hr, h1]
+  have hl : ∀ ts : List (Tri3 ℝ), (ts.flatMap triLabels).length = 3 * ts.length := by
+    intro ts
+    induction ts with
+    | nil => rfl
+    | cons t ts ih => simp [triLabels] at ih ⊢; omega
+  rw [hl]; omega
+
+
 end ScadVerif.TriLemmas
